@@ -36,7 +36,7 @@ func main() {
 		os.Exit(childMain(os.Args[2:]))
 	}
 	run = lib.NewRun("C18", "exploration")
-	run.SetRule("Fixed case lists from VERIF_SEED/tier. (a) per wire type a list of reflection-generated values in four profiles (plain / extreme integers, invalid UTF-8 and out-of-range times / large slices crossing go-wire's 1024-element chunk and 64 KiB byte strings / both), every registered concrete type of every message interface forced in turn; (b) per decoder groups of one valid encoding plus its mutants (all truncations and, for short seeds, every offset x every huge-length pattern and type byte; bit flips, insertions, splices, random bytes, JSON node substitutions), each offered with the limits 1,16,256,4096,1 MiB; (c) all inputs of <=2 bytes (<=3 thorough) plus structured canonical / deliberately non-canonical / byte-mutated RLP into 30 target types; (d) a collision table over the product of hostile chain ids (quotes, backslashes, braces, control, unicode, JSON that mimics the remaining fields) x heights x rounds x types x block ids, plus explicit one-field-differs pairs. Non-trivial: a distinct encoding round-tripped, a distinct robust group, a distinct RLP input, a distinct differing pair.")
+	run.SetRule("Fixed case lists from VERIF_SEED/tier. (a) per wire type a list of reflection-generated values in four profiles (plain / extreme integers, invalid UTF-8 and out-of-range times / large slices crossing go-wire's 1024-element chunk and 64 KiB byte strings / both), every registered concrete type of every message interface forced in turn; (b) per decoder groups of one valid encoding plus its mutants (truncations; at every offset of a short seed, at every offset of the first 64 bytes and at sampled offsets otherwise: a ladder of huge varint length prefixes 64 Ki .. MaxInt64 in growing order - after a step that over-allocates (reported) the larger steps at that offset and limit are skipped - plus negative / invalid / RLP-shaped prefixes and wrong type bytes; bit flips, insertions, splices, random bytes, JSON node substitutions), each offered with the limits 1,16,256,4096,1 MiB; (c) all inputs of <=2 bytes (<=3 thorough) plus structured canonical / deliberately non-canonical / byte-mutated RLP into 30 target types; (d) a collision table over the product of hostile chain ids (quotes, backslashes, braces, control, unicode, JSON that mimics the remaining fields) x heights x rounds x types x block ids, plus explicit one-field-differs pairs. Non-trivial: a distinct encoding round-tripped, a distinct robust group, a distinct RLP input, a distinct differing pair.")
 	run.Assume(
 		"nil slice == empty slice after a round trip: both go-wire formats and RLP carry only a length (byteslice.go ReadByteSlice returns make([]byte,0); JSON \"\" / []); nil pointers and nil interfaces are distinct from non-nil ones and must survive",
 		"only exported fields without json:\"-\" are part of the go-wire formats (reflect.go MakeTypeInfo); caches such as Commit.hash or ValidatorSet.proposer are not compared",
@@ -44,12 +44,12 @@ func main() {
 		"go-wire JSON strings go through encoding/json, which coerces invalid UTF-8 to U+FFFD (documented there): strings that are not valid UTF-8 are judged for the binary format only; chain ids that are not valid UTF-8 (they cannot come out of a JSON genesis document) are observed, not judged, in the sign-bytes monitor",
 		"idempotence (a second encode-decode-encode pass is a fixed point) is demanded even for those lossy inputs",
 		"allocation bound: go-wire binary decoders with a caller limit 64*max(limit,len)+64 KiB; reactors' DecodeMessage with their built-in limit in place of the caller's; decoders without any limit parameter (JSON, RLP, crypto.*FromBytes) 1024*len+1 MiB (the input length is their only bound). TotalAlloc deltas are exact because the child runs with GOMAXPROCS=1 and nothing else allocates",
+		"a child that dies is restarted after the killing input; after 60 deaths inside one group (one seed and its mutants) the rest of that group is skipped and counted (robust_groups_cut_short_after_60_deaths): its decoder is in violation many times over by then",
 		"unexported wire structs (p2p authSigMessage, msgPacket) are exercised through structural twins; unexported registered message types (WAL msgInfo/timeoutInfo, blockchain and PEX messages) are built by reflection from go-wire's own registry",
 		"sign-bytes identity of a block id / part-set header is BlockID.Equals (bytes.Equal: nil == empty hash)",
 		"the reference is github.com/ethereum/go-ethereum v1.8.27 rlp from the module cache; only rlp-level target types are compared (core/types is not linked twice)",
 	)
 	scratchDir = lib.Scratch("C18")
-	defer os.RemoveAll(scratchDir)
 
 	t0 := time.Now()
 	phase := func(name string) {
@@ -137,5 +137,7 @@ func main() {
 	run.Require("signbytes_values_in_collision_table", 100000)
 	run.Require("signbytes_pairs_differing", int64(lib.Pick(30000, 700000)))
 	run.Require("signbytes_pairs_equal_fields", 1000)
-	os.Exit(run.Finish())
+	code := run.Finish()
+	os.RemoveAll(scratchDir)
+	os.Exit(code)
 }
